@@ -68,9 +68,18 @@ StepsFrom(steps, j, f, caseOnly) ==
        IN IF SpecInvalid(low) THEN <<"invalid", f, caseOnly>>
           ELSE StepsFrom(steps, j + 1, ApplyRuns(f, SpecMap(low)), caseOnly \/ SpecInvalid(steps[j].items))
 
+\* m: what shared_atts reports (0 not reported, else 1 + raw value code) - every character must have that value.
+\* Values are compared as a reader of the mapping sees them: absent and explicit False are the same (nothing shown),
+\* True is another value, and an explicit None (a style forwarded as `bold=flag_or_None`, code 3) is a third one - a
+\* character without the attribute does not "have" None.
+SharedOk(f, m) ==
+  LET norm(v, i) == IF i > 2 /\ v = 1 THEN 0 ELSE v
+  IN \A i \in AttIdx : m[i] # 0 => \A r \in 1..Len(f) : f[r][1] = <<>> \/ norm(f[r][2][i], i) = norm(m[i] - 1, i)
+
 JudgeApply(e) ==
   LET r == StepsFrom(e.steps, 1, e.base.v, FALSE)
-  IN IF r[1] = "invalid"
+  IN IF e.res.k = "ok" /\ ~SharedOk(e.res.v, e.rm) THEN V("Apply.SharedOfResult", FALSE)   \* what the result then says it shares
+     ELSE IF r[1] = "invalid"
      THEN IF e.res.k = "exc" /\ e.res.t = "ValueError" THEN V("ok", TRUE)
           ELSE IF e.res.k = "exc" THEN V("Apply.InvalidWrongError", FALSE) ELSE V("Apply.InvalidAccepted", FALSE)
      ELSE IF r[3] /\ e.res.k = "exc" /\ e.res.t = "ValueError" THEN V("ok", FALSE)   \* case variant rejected: allowed
@@ -90,17 +99,10 @@ JudgeNewStr(e) ==
      ELSE IF ~Consistent(e.res) THEN V("NewStr.LenText", FALSE)
      ELSE V("ok", TRUE)
 
-\* shared_atts: m[i] = 0 not reported, else 1 + raw value code; every character must have that value.  Values are
-\* compared as a reader of the mapping sees them: absent and explicit False are the same (nothing shown), True is
-\* another value, and an explicit None (a style forwarded as `bold=flag_or_None`, code 3) is a third one - a
-\* character without the attribute does not "have" None.
 JudgeShared(e) ==
-  LET norm(v, i) == IF i > 2 /\ v = 1 THEN 0 ELSE v
-  IN IF e.k = "exc" THEN V("ok", FALSE)     \* nothing reported
-     ELSE IF \E i \in AttIdx : e.m[i] # 0 /\ \E r \in 1..Len(e.f) :
-                  e.f[r][1] # <<>> /\ norm(e.f[r][2][i], i) # norm(e.m[i] - 1, i)
-          THEN V("Shared.NotShared", FALSE)
-     ELSE V("ok", TRUE)
+  IF e.k = "exc" THEN V("ok", FALSE)     \* nothing reported
+  ELSE IF ~SharedOk(e.f, e.m) THEN V("Shared.NotShared", FALSE)
+  ELSE V("ok", TRUE)
 
 (* ---------------------------------------------------------------- C19 *)
 JudgeEq(e) ==
